@@ -4,7 +4,7 @@
    Base/Adapters.v (the models). *)
 From Coq Require Import List NArith ZArith Bool.
 From MS Require Import Base.Bytes Base.Outcome Base.Cursor Base.Adapters Base.AdaptersSpec
-     Base.AdaptersProofs Base.AdaptersProofsBuf Base.AdaptersProofsHist.
+     Base.AdaptersProofs Base.AdaptersProofsBuf Base.AdaptersProofsHist Base.AdaptersProofsVcur.
 Import ListNotations.
 Open Scope N_scope.
 
@@ -20,6 +20,13 @@ Theorem C15_cursor_refines : forall max_seek : N,
   refines (cursor_reader max_seek) (fun c => c) (fun c => wf_cur c /\ clen c <= max_seek).
 Proof. exact cursor_reader_refines. Qed.
 Print Assumptions C15_cursor_refines.
+
+(* a sparse virtual Read + Seek stream of up to 2^64-1 bytes is such a seek-style cursor: with C15_seek_adapter_refines
+   this covers skips of more than i64::MAX bytes that stay within the stream *)
+Theorem C15_vcursor_refines : forall max_seek : N,
+  seeker_refines max_seek (vcursor_seeker max_seek) vabs (vinv max_seek).
+Proof. exact vcursor_refines. Qed.
+Print Assumptions C15_vcursor_refines.
 
 (* std BufReader of any capacity >= 1 over ANY reader that refines the ideal cursor: buffering never skips,
    repeats or misreports bytes *)
